@@ -90,8 +90,11 @@ def run_case(job):
         if os.path.isdir(box.path(outrel)):
             allf = box.files(outrel)
             # the pages this run wrote = files created or modified under the output directory
-            pages = {k: v for k, v in allf.items() if k.endswith(".rst") and os.path.basename(k) != "index.rst"
-                     and os.path.join(outrel, k) in ch}
+            # (a directory that holds index.cmake: its index.rst is that file's page - known finding K4 - and a page)
+            has_index_cmake = {dirmodel._join(tree.rel(i), "index.rst") for i in range(len(parents))
+                               if "index.cmake" in tree.files(i)} if kind == "tree" else set()
+            pages = {k: v for k, v in allf.items() if k.endswith(".rst") and os.path.join(outrel, k) in ch
+                     and (os.path.basename(k) != "index.rst" or k in has_index_cmake)}
         # twin without -o
         before2 = box2.snapshot()
         r2 = box2.run(argv + [inp])
@@ -138,7 +141,13 @@ def run_case(job):
             for k in order:
                 bydir.setdefault(os.path.dirname(k), []).append(os.path.basename(k))
             for d, lst in bydir.items():
-                srt = sorted(lst)
+                # sorted by the name of the CMake file a page stems from (not by the page's own name)
+                src = {}
+                if kind == "tree":
+                    for i in range(len(parents)):
+                        if (tree.rel(i) if tree.rel(i) != "." else "") == d:
+                            src = {dirmodel.stem(f) + ".rst": f for f in tree.files(i)}
+                srt = sorted(lst, key=lambda pg: src.get(pg, pg))
                 if lst != srt:
                     msgs.append(f"stdout-order: pages of directory {d or '.'} are printed as {lst}, not in sorted order")
         npages = len(pages)
@@ -155,7 +164,7 @@ def run(ctx):
     shapes = dirmodel.shapes(3 if quick else 4, 3)
     jobs = []
     for parents in shapes:
-        for a in assignments(len(parents), 1):
+        for a in assignments(len(parents), 1, with_indexfile=True):
             if not any(f.endswith(".cmake") for f in dirmodel.CONTENT[a[0]]):
                 continue
             for n, (outmode, sname) in enumerate(itertools.product(OUTMODES, SETTINGS)):
